@@ -50,7 +50,8 @@ def render(tt):
 ALPHABET = ['x', 'unsafe', 'true', 'false', '1', '-1', '1.5', '""', '"x"', "'c'", '=', ',', '::', '*', '-', "'a", '<', '>',
             ['(', [], ')'], ['[', [], ']'], ['{', [], '}'], 'name', 'Debug',
             '9223372036854775807', '9223372036854775808', '"-9223372036854775807"', '"-9223372036854775808"',
-            '"a b"', '"1x"', '"a-b"', '"r#x"', '"T: "']
+            '"a b"', '"1x"', '"a-b"', '"r#x"', '"T: "',
+            'type', 'fn', 'Self', 'self', 'crate', 'super', 'enum', 'r#type', '_', 'dyn', '"type"', '"Self"', '"_"']
 
 
 def mutations(tt, alphabet):
@@ -105,6 +106,10 @@ def seeds():
     add('st/Into', '#[derive(Educe)]\n#[educe({A})]\nstruct Ty {{ #[educe(Into(u8))] a: u8, #[educe(Into(u16, method(m)))] b: u8 }}\n', 'Into(u8), Into(u16, bound = false)')
     add('st/Into-ref', "#[derive(Educe)]\n#[educe({A})]\nstruct Ty {{ a: &'static str }}\n", "Into(&'static str), Into(Vec<u8>, bound(Vec<u8>: Clone))")
     add('en/name-true', en, 'Debug(name = true)')
+    add('en/name-list', en, 'Debug(name(Zz))')
+    add('en/rename-list', en, 'Debug(rename(Zz), bound(*))')
+    add('v/name-list-on', '#[derive(Educe)]\n#[educe(Debug(name = true))]\nenum Ty {{ #[educe({A})] A(u8, u16), B {{ x: u8 }} }}\n', 'Debug(name(Vv))')
+    add('v/name-eq-on', '#[derive(Educe)]\n#[educe(Debug(name(Zz)))]\nenum Ty {{ A(u8, u16), #[educe({A})] B {{ x: u8 }} }}\n', 'Debug(rename = Vv)')
     # field / variant level (the mutated attribute is the inner one)
     fld = '#[derive(Educe)]\n#[educe({T})]\nstruct Ty {{ #[educe({A})] a: u8, b: u16 }}\n'
     tfld = '#[derive(Educe)]\n#[educe({T})]\nstruct Ty(u16, #[educe({A})] u8);\n'
@@ -241,6 +246,22 @@ def item_zoo():
         add('C17|zoo|%s|st|Deref-marked' % zk, "#[derive(Educe)]\n#[educe(Deref, DerefMut)]\nstruct Ty<'a, T> { #[educe(Deref, DerefMut)] z: %s, t: &'a T }\n" % z, {'field_type': z})
         add('C17|zoo|%s|en|Deref' % zk, "#[derive(Educe)]\n#[educe(Deref)]\nenum Ty<'a> { A(%s), B { #[educe(Deref)] z: %s, t: &'a u8 } }\n" % (z, z), {'field_type': z})
         add('C17|zoo|%s|un|all' % zk, "#[derive(Educe)]\n#[educe(Debug(unsafe), PartialEq(unsafe), Hash(unsafe), Copy, Clone, Default)]\nunion Ty<'a, T> { #[educe(Default)] z: %s, t: &'a T }\n" % z, {'field_type': z})
+    # degenerate shapes under every trait: zero-field tuple / struct variants and structs, unit and empty forms, with and without markers
+    shapes = {
+        'enum-t0': 'enum Ty { {M}Ping() }', 'enum-n0': 'enum Ty { {M}Pong {} }', 'enum-t0-n0': 'enum Ty { {M}Ping(), Pong {} }', 'enum-u': 'enum Ty { {M}A }', 'enum-u-t0-n1': 'enum Ty { {M}A, B(), C { {F}x: u8 } }',
+        'enum-t1-t0': 'enum Ty { {M}A({F}u8), B() }', 'enum-n1-n0': 'enum Ty { {M}A { {F}x: u8 }, B {} }', 'enum-t0-t1': 'enum Ty { A(), {M}B({F}u8) }', 'enum-empty': 'enum Ty {}',
+        'enum-t2-u': 'enum Ty { {M}A({F}u8, u8), B }', 'struct-t0': 'struct Ty();', 'struct-n0': 'struct Ty {}', 'struct-u': 'struct Ty;', 'struct-t1': 'struct Ty({F}u8);', 'struct-n1': 'struct Ty { {F}x: u8 }',
+        'union-1': 'union Ty { {F}x: u8 }', 'union-2': 'union Ty { {F}x: u8, y: u16 }', 'enum-g-t0': "enum Ty<'a, T, const N: usize> { {M}A(), B({F}&'a [T; N]) }",
+    }
+    tsets = {'Debug': ('Debug', '', ''), 'Debug-off': ('Debug(name = false)', '', ''), 'Debug-u': ('Debug(unsafe)', '', ''), 'Clone': ('Clone', '', ''), 'Copy': ('Copy, Clone', '', ''),
+             'PartialEq': ('PartialEq, Eq', '', ''), 'PartialEq-u': ('PartialEq(unsafe), Eq, Hash(unsafe)', '', ''), 'Ord': ('PartialEq, Eq, PartialOrd, Ord', '', ''),
+             'PartialOrd': ('PartialEq, PartialOrd', '', ''), 'Hash': ('Hash', '', ''), 'Default': ('Default', '', ''), 'Default-m': ('Default(new)', '#[educe(Default)] ', ''),
+             'Default-f': ('Default', '#[educe(Default)] ', '#[educe(Default = 1)] '), 'Deref': ('Deref', '', ''), 'Deref-f': ('Deref, DerefMut', '', '#[educe(Deref, DerefMut)] '),
+             'DerefMut': ('DerefMut', '', '#[educe(DerefMut)] '), 'Into': ('Into(u8)', '', ''), 'Into-f': ('Into(u8), Into(u16)', '', '#[educe(Into(u8), Into(u16))] '),
+             'all': ('Debug, Clone, PartialEq, Eq, PartialOrd, Ord, Hash', '', '')}
+    for sk, sh in shapes.items():
+        for tk, (tl, vm, fm) in tsets.items():
+            add('C17|shape|%s|%s' % (sk, tk), '#[derive(Educe)]\n#[educe(%s)]\n%s\n' % (tl, sh.replace('{M}', vm).replace('{F}', fm)), {'shape': sk, 'traits': tk})
     for ts in ('PartialEq, PartialOrd', 'PartialEq, Eq, PartialOrd, Ord', 'PartialEq, Eq, Ord'):
         tk = ts.replace('PartialEq, ', '').replace('Eq, ', '')
         for repr, (lo, hi) in list(BOUNDS.items()) + [(None, BOUNDS['isize'])]:
@@ -326,7 +347,7 @@ def check(v, tier):
     return v.finish('seeds: every documented attribute form at type / variant / field / union-field level on a matching shape; every single token-tree mutation of the argument list at every '
                     'nesting level: delete, duplicate, swap adjacent, replace by / insert each element of a 32-token alphabet (identifiers, unsafe, booleans, numbers incl. the isize boundaries, strings, char, = , :: * - '
                     'lifetime < > and empty groups in each delimiter), re-delimit or unwrap every group; attribute forms (#[educe], #[educe = lit], empty and malformed lists, raw identifiers, '
-                    'out-of-range numbers) at six host positions; the item itself: 43 exotic field types (parenthesised and multi-bound trait objects, fn pointers, raw pointers, never, qualified paths, macro types, unsized and self-referential types, ...) under ten trait sets, as Into bystander / source / target and as Deref target, on structs, enums and unions; enum discriminants at the minimum, the maximum and one beyond for every #[repr] at five positions, and 28 literal / non-literal discriminant expressions; nesting depths 1..256 (thorough ..2048) of ten recursive constructs, types with up to 256 fields / variants; all through '
+                    'out-of-range numbers) at six host positions; the item itself: 18 degenerate shapes (zero-field tuple / struct variants and structs, unit, empty, single-field, unions, generics) under 19 trait sets with and without markers; 43 exotic field types (parenthesised and multi-bound trait objects, fn pointers, raw pointers, never, qualified paths, macro types, unsized and self-referential types, ...) under ten trait sets, as Into bystander / source / target and as Deref target, on structs, enums and unions; enum discriminants at the minimum, the maximum and one beyond for every #[repr] at five positions, and 28 literal / non-literal discriminant expressions; nesting depths 1..256 (thorough ..2048) of ten recursive constructs, types with up to 256 fields / variants; all through '
                     'the real macro inside rustc (one expansion round; a sentinel request at the end of every shard proves expansion reached it); thorough: pairs of mutations in-process, every '
                     'panic candidate confirmed through rustc.  Oracle: accepted or refused with a diagnostic; "proc-macro derive panicked", a compiler crash or exceeding the cap (bisected to '
                     'the case) is a violation; non-trivial = inputs refused by an educe diagnostic',
